@@ -1261,7 +1261,7 @@ PassMessageCallbackAux(DataNode & node, const MessageRef & msgRef, bool includeS
 
    StorageReflectSession * next = dynamic_cast<StorageReflectSession *>(GetSession(node.GetAncestorNode(NODE_DEPTH_SESSIONNAME, &node)->GetNodeName())());
    if ((next)&&((next != this)||(includeSelfOkay))) next->MessageReceivedFromSession(*this, msgRef, &node);
-   return NODE_DEPTH_SESSIONNAME; // This causes the traversal to immediately skip to the next session
+   return NODE_DEPTH_HOSTNAME; // Returning the depth of the session-node's parent causes the traversal to immediately skip to the next session
 }
 
 int
